@@ -69,7 +69,7 @@ PINS = [
     'mesonbuild.mintro:update_build_options',
 ]
 TRUSTED = [
-    'harness/c08_run.py: the test tree (top + subprojects/sub; meson.build prints every option of its option file), the '
+    'harness/c08_run.py: the test tree (top + subprojects/sub + subprojects/alt; meson.build prints every option of its option file), the '
     'readers of coredata.dat (unpickled with the implementation\'s own classes, OptionStore.get_value_for), cmd_line.txt and '
     'intro-buildoptions.json',
     'harness/c08_ref.py: the reference semantics written from the property statement (non-deterministic where the statement '
@@ -101,7 +101,17 @@ INIT = {
             's_arrc': A('pqr', 'p'), 's_feat': F('enabled'),
             'ystr': dict(S('c0'), y=True), 'ylevel': dict(I(0, 10, 5), y=True), 'yarr': dict(A('xyz', 'y'), y=True),
             'yfeat': dict(F('disabled'), y=True)},
+    # a second subproject: NON-yielding options with the name AND the definition (type, description, choices / range)
+    # of the top-level option that `sub` inherits from (only the default differs) — distinct objects with equal
+    # definitions —, one more child of a top-level option, own options
+    'alt': {'a_str': S('as0'), 'shared': C('abc', 'c'), 'flag': B(True), 'ystr': S('q0'), 'ylevel': I(0, 10, 7),
+            'yarr': A('xyz', 'z'), 'yfeat': dict(F('enabled'), y=True), 'a_fix': S('af0'), 'a_fix2': S('ag0'),
+            'a_combo': C('xyz', 'y')},
 }
+SUBS = [p for p in INIT if p != 'top']
+REF.SUBS[:] = SUBS
+# the non-yielding same-definition copies in `alt`
+TWIN = {'string': 'ystr', 'boolean': 'flag', 'combo': 'shared', 'integer': 'ylevel', 'arrayc': 'yarr'}
 # one plain option of every kind per project, one inheriting pair (same name in both projects) of every kind
 PLAIN = {'top': {'string': 't_str', 'boolean': 't_bool', 'combo': 't_combo', 'integer': 't_int', 'array': 't_arr',
                  'arrayc': 't_arrc', 'feature': 't_feat'},
@@ -109,7 +119,8 @@ PLAIN = {'top': {'string': 't_str', 'boolean': 't_bool', 'combo': 't_combo', 'in
                  'arrayc': 's_arrc', 'feature': 's_feat'}}
 YIELD = {'string': 'ystr', 'boolean': 'flag', 'combo': 'shared', 'integer': 'ylevel', 'arrayc': 'yarr', 'feature': 'yfeat'}
 # the reference sees the default_options of the build files as defaults of a fresh configuration
-REF.BUILD_FILE_DEFAULTS[:] = [x.split('=') for x in RUN.PDO_TOP] + [['sub:' + x.split('=')[0], x.split('=')[1]] for x in RUN.PDO_SUB + RUN.SPCALL]
+REF.BUILD_FILE_DEFAULTS[:] = [x.split('=') for x in RUN.PDO_TOP] + \
+    [[p_ + ':' + x.split('=')[0], x.split('=')[1]] for p_ in SUBS for x in RUN.pdo_of(p_) + RUN.spcall_of(p_)]
 
 # edits: (project, option) -> specs it may be set to (None = remove the option)
 VARIANTS: T.Dict[T.Tuple[str, str], T.List[T.Optional[dict]]] = {
@@ -128,6 +139,15 @@ VARIANTS: T.Dict[T.Tuple[str, str], T.List[T.Optional[dict]]] = {
     ('sub', 'flag'): [B(True, True), None],
     ('sub', 's_extra'): [I(1, 9, 4), S('x0'), None],
     ('sub', 's_fix'): [S('sf0'), S('sf1')],
+    # the twins in `alt`: removed, other choices / range, other type, made yielding
+    ('alt', 'shared'): [C('abc', 'c'), C('abcd', 'c'), C('bc', 'c'), None, S('sh'), C('abc', 'c', True)],
+    ('alt', 'flag'): [B(True), None, S('fl')],
+    ('alt', 'ystr'): [S('q0'), None, B(False)],
+    ('alt', 'ylevel'): [I(0, 10, 7), I(0, 20, 7), None],
+    ('alt', 'yarr'): [A('xyz', 'z'), A('xyzw', 'z'), None],
+    ('alt', 'yfeat'): [dict(F('enabled'), y=True), None],
+    ('alt', 'a_str'): [S('as0'), S('as1'), None],
+    ('alt', 'a_combo'): [C('xyz', 'y'), C('xy', 'y'), None],
 }
 # which edits re-derive defects that are already recorded (keeps their share of the random stream bounded)
 VALUES: T.Dict[str, T.List[str]] = {
@@ -138,10 +158,15 @@ VALUES: T.Dict[str, T.List[str]] = {
     'sub:flag': ['true', 'false'], 'sub:s_extra': ['4', '8', 'x0'], 'sub:s_fix': ['frompdo', 'f1'], 'sub:s_fix2': ['sg0', 'g1'],
     'warning_level': ['0', '2', '3', '9'], 'sub:warning_level': ['0', '2', '3', '9'],
     'nosuch': ['1'], 'sub:nosuch': ['1'],
+    'alt:shared': ['a', 'b', 'c', 'd'], 'alt:flag': ['true', 'false'], 'alt:ystr': ['w1', 'w2'], 'alt:ylevel': ['2', '8', '15'],
+    'alt:yarr': ['x', 'y,z', 'w'], 'alt:yfeat': ['enabled', 'disabled', 'auto'], 'alt:a_str': ['k1', 'as0'],
+    'alt:a_combo': ['x', 'y', 'z'], 'alt:warning_level': ['0', '3'], 'ystr': ['r1', 'r2'], 'ylevel': ['1', '9'],
+    'yarr': ['x', 'y', 'x,z'], 'yfeat': ['enabled', 'disabled', 'auto'], 'sub:ystr': ['c1'], 'sub:ylevel': ['4', '6'],
 }
 PIN = {'t_str': 'ts0', 't_combo': 'a', 't_int': '3', 't_arr': 'x,y', 'flag': 'false', 'sub:s_str': 'ss0',
        'sub:s_combo': 'x', 'warning_level': '1'}
-UKEYS = ['sub:shared', 'sub:flag', 'sub:warning_level', 'sub:s_str', 'sub:nosuch']
+UKEYS = ['sub:shared', 'sub:flag', 'sub:warning_level', 'sub:s_str', 'sub:nosuch', 'alt:yfeat', 'alt:warning_level',
+         'alt:shared', 'sub:ystr', 'sub:ylevel']
 
 
 def rand_d(rng: random.Random, n: int) -> T.List[T.List[str]]:
@@ -271,7 +296,7 @@ def kind_of(sp: dict) -> str:
 
 
 def key_of(proj: str, name: str) -> str:
-    return name if proj == 'top' else 'sub:' + name
+    return name if proj == 'top' else proj + ':' + name
 
 
 def cl(v: T.Any) -> str:
@@ -401,6 +426,66 @@ def templates() -> T.List[T.Tuple[str, str, str, T.List[dict]]]:
             out.append(('yield:child-replaced:overridden', kind, 'sub',
                         [su(), cf((sk, v1)), ed('sub', name, ns), rc(), cf((name, v2)), cf(U=[sk])]))
 
+
+    # -- same-named, same-definition options in the top-level project and TWO subprojects: `sub` inherits
+    #    (yield: true), `alt` has its own non-yielding twin (an equal definition in a distinct object).  Every one of
+    #    the three is edited / removed / re-typed while the others are set, overridden or inheriting; what an edit of
+    #    ONE project's option file does to the options of the OTHER projects is then read back (frame over objects).
+    for kind, name in TWIN.items():
+        tsp, ssp, asp = INIT['top'][name], INIT['sub'][name], INIT['alt'][name]
+        sk, ak = 'sub:' + name, 'alt:' + name
+        vs = valid_values(tsp)
+        dT, dS, dA = cl(tsp['d']), cl(ssp['d']), cl(asp['d'])
+
+        def pk(cands: T.List[str], *avoid: str) -> str:
+            for n in range(len(avoid), -1, -1):
+                for v in cands:
+                    if all(v != a for a in avoid[:n]):
+                        return v
+            return cands[0]
+        v2 = pk(vs, dT, dS, dA)          # the parent's value: differs from every default
+        v3 = pk(vs, v2, dS, dT)
+        va = pk(valid_values(asp), dA, v2, v3)
+        v1 = pk(valid_values(ssp), v2, dS, v3)
+        c = 'twin:' + kind
+        # the twin is removed (reconfigure / configure re-read the file): the child keeps following the parent
+        out.append(('twin:removed', kind, 'alt', [su((name, v2)), ed('alt', name, None), rc(), cf((name, v3)), rc()]))
+        out.append(('twin:removed:configure', kind, 'alt', [su((name, v2)), ed('alt', name, None), cf((name, v3)), rc(), WIPE]))
+        out.append(('twin:removed:child-overridden', kind, 'alt',
+                    [su((name, v2)), cf((sk, v1)), ed('alt', name, None), rc(), cf((name, v3)), cf(U=[sk]), rc()]))
+        out.append(('twin:removed:readded', kind, 'alt',
+                    [su((name, v2)), ed('alt', name, None), rc(), ed('alt', name, asp), rc(), cf((name, v3)), cf((ak, va))]))
+        # the twin gets other choices / another range (its object is replaced), with and without a value of its own
+        for label, na in domains(asp):
+            if not ok_in(na, va):
+                continue
+            out.append(('twin:replaced', kind, 'alt', [su((name, v2), (ak, va)), ed('alt', name, na), rc(), cf((name, v3)), rc()]))
+            out.append(('twin:replaced:default', kind, 'alt', [su((name, v2)), ed('alt', name, na), cf((name, v3)), rc()]))
+            out.append(('twin:replaced:child-overridden', kind, 'alt',
+                        [su((name, v2)), cf((sk, v1)), ed('alt', name, na), rc(), cf((name, v3)), cf(U=[sk])]))
+        # the twin changes type / becomes yielding itself
+        out.append(('twin:retyped', kind, 'alt', [su((name, v2)), ed('alt', name, RETYPE[kind]), rc(), cf((name, v3)), rc()]))
+        out.append(('twin:made-yielding', kind, 'alt', [su((name, v2)), ed('alt', name, dict(asp, y=True)), rc(), cf((name, v3)), WIPE]))
+        # the whole option file of `alt` deleted / emptied
+        out.append(('twin:file-deleted', kind, 'alt', [su((name, v2)), {'op': 'file', 'proj': 'alt', 'state': None}, rc(), cf((name, v3)), rc()]))
+        # the CHILD or the PARENT is edited: the twin keeps its own value
+        for label, ns in domains(ssp):
+            if ok_in(ns, v1):
+                out.append(('twin:child-replaced', kind, 'sub', [su((ak, va)), ed('sub', name, ns), rc(), cf((name, v2)), rc()]))
+        out.append(('twin:child-removed', kind, 'sub', [su((ak, va), (name, v2)), ed('sub', name, None), rc(), cf((name, v3))]))
+        for label, nt in domains(tsp):
+            if ok_in(nt, v2):
+                out.append(('twin:parent-replaced', kind, 'top', [su((ak, va), (name, v2)), ed('top', name, nt), rc(), cf((name, v3)), rc()]))
+        out.append(('twin:parent-removed', kind, 'top', [su((ak, va)), ed('top', name, None), rc(), cf((ak, dA)), rc()]))
+    # two children of one parent (`sub:yfeat`, `alt:yfeat`): one overridden, parent changed, one child removed
+    out.append(('two-children', 'feature', 'alt', [su(('yfeat', 'enabled')), cf(('alt:yfeat', 'disabled')), cf(('yfeat', 'disabled')),
+                                                   cf(U=['alt:yfeat']), ed('alt', 'yfeat', None), rc(), cf(('yfeat', 'enabled'))]))
+    out.append(('two-children', 'feature', 'sub', [su(), cf(('sub:yfeat', 'enabled')), ed('sub', 'yfeat', None), rc(('yfeat', 'disabled')),
+                                                   cf(('yfeat', 'enabled')), WIPE]))
+    # plain options of the second subproject
+    out.append(('persist', 'string', 'alt', [su(('alt:a_str', 'k1')), cf(('alt:a_combo', 'z')), rc(), WIPE, cf(('alt:warning_level', '3')),
+                                             cf(U=['alt:warning_level'])]))
+
     # -- plain options of every kind in both projects
     for proj in ('top', 'sub'):
         for kind, name in PLAIN[proj].items():
@@ -413,6 +498,12 @@ def templates() -> T.List[T.Tuple[str, str, str, T.List[dict]]]:
             alt = alt_default(sp)
             # set -> persists over configure / reconfigure / wipe
             out.append(('persist', kind, proj, [su((k, v)), cf((k, w)), rc(), WIPE, rc((k, v))]))
+            # the EMPTY value (boundary of the value domain of strings and free-form arrays) given to configure /
+            # reconfigure / the first setup: recorded, persists, replayed by --wipe
+            if kind in ('string', 'array'):
+                out.append(('persist:empty-value', kind, proj, [su((k, v)), cf((k, '')), rc(), WIPE, rc()]))
+                out.append(('persist:empty-value', kind, proj, [su(), rc((k, '')), cf((k, v)), cf((k, '')), WIPE]))
+                out.append(('persist:empty-value', kind, proj, [su((k, '')), rc(), WIPE, cf((k, v)), WIPE]))
             # (not set) remove -> re-read -> re-add with another default -> read; set -> remove (the recorded finding)
             out.append(('remove-readd', kind, proj, [su(), ed(proj, name, None), rc(), ed(proj, name, alt), rc(), cf((k, v))]))
             out.append(('remove-recorded', kind, proj, [su((k, v)), ed(proj, name, None), rc()]))
@@ -519,8 +610,9 @@ def pad(rng: random.Random, h: T.List[dict]) -> T.List[dict]:
 # ---------------------------------------------------------------- model side
 
 def e_key(k: str) -> str:
-    if k.startswith('sub:'):
-        return f'{enc(k[4:])}:S{enc("sub")}:h'
+    if ':' in k:
+        pr, _, n = k.partition(':')
+        return f'{enc(n)}:S{enc(pr)}:h'
     return f'{enc(k)}:N:h'
 
 
@@ -576,6 +668,12 @@ def e_cmd(c: dict) -> str:
         return 'cf;' + ','.join(f'{e_key(k)}=' + ('-' if v is None else e_val(v)) for k, v in args.items())
     if op == 'corrupt':
         return 'co'
+    if op == 'file' and c['proj'] not in ('top', 'sub'):
+        return 'xf;%s;%s' % (enc(c['proj']), {None: '-', 'options': '0', 'txt': '1'}[c['state']])
+    if op == 'edit' and c['proj'] not in ('top', 'sub'):
+        if c['spec'] is None:
+            return f'xr;{enc(c["proj"])};{enc(c["name"])}'
+        return f'xs;{enc(c["proj"])};{enc(c["name"])};{e_spec(c["spec"])}'
     if op == 'file':
         return 'fs;%s;%s' % ('1' if c['proj'] == 'sub' else '0', {None: '-', 'options': '0', 'txt': '1'}[c['state']])
     if op == 'edit':
@@ -591,8 +689,11 @@ def e_dol(l: T.List[str]) -> str:
 
 
 def model_line(hist: T.List[dict]) -> str:
-    return 'hist ' + '|'.join([e_defs(INIT['top']), e_defs(INIT['sub']), e_dol(RUN.PDO_TOP), e_dol(RUN.PDO_SUB),
-                               e_dol(RUN.SPCALL)] + [e_cmd(c) for c in hist])
+    more = [p for p in SUBS if p != 'sub']
+    head = [e_defs(INIT['top']), e_defs(INIT['sub']), e_dol(RUN.PDO_TOP), e_dol(RUN.PDO_SUB), e_dol(RUN.SPCALL), str(len(more))]
+    for p in more:
+        head += [enc(p), e_defs(INIT[p]), e_dol(RUN.pdo_of(p)), e_dol(RUN.spcall_of(p))]
+    return 'histx ' + '|'.join(head + [e_cmd(c) for c in hist])
 
 
 def jn(items: T.Iterable[str]) -> str:
@@ -663,8 +764,9 @@ def matches(st: REF.State, cmd: dict, ob: dict) -> T.Optional[str]:
     if it is None:
         return 'intro:absent'
     # (an override of the builtin that merely repeats the global value has no row: no row = the global value)
-    gb, sb = 'top:' + RUN.BUILTIN, 'sub:' + RUN.BUILTIN
-    want = {k: v for k, v in eff.items() if k in st.val or k == gb or (k == sb and k in st.override and eff[sb] != eff[gb])}
+    gb = 'top:' + RUN.BUILTIN
+    sbs = [p + ':' + RUN.BUILTIN for p in SUBS]
+    want = {k: v for k, v in eff.items() if k in st.val or k == gb or (k in sbs and k in st.override and eff[k] != eff[gb])}
     got_it = {intro_key(n): v for n, v in it.items()}
     if set(got_it) != set(want):
         return 'intro:keys'
@@ -681,7 +783,7 @@ def classify(st: REF.State, files: dict, cmd: dict, ob: dict, prev: T.Optional[d
     rec_vanished = []
     for k in st.rec:
         key = REF.user_key(k)
-        if not k.endswith(RUN.BUILTIN) and key[4:] not in files[key[:3]]:
+        if not k.endswith(RUN.BUILTIN) and REF.name_of(key) not in files.get(REF.proj_of(key), {}):
             rec_vanished.append(k)
     if ob['rc'] != 'ok':
         changed = [n for n in ('cmdline', 'core') if persisted(ob)[n] != persisted(prev)[n]] or ['intro']
@@ -715,7 +817,7 @@ def classify(st: REF.State, files: dict, cmd: dict, ob: dict, prev: T.Optional[d
                 'after the choices of a `yield: true` subproject option changed, reading it dies with AttributeError')
     if kind == 'value' and key in s0.parent_replaced:
         return ('yield-reads-replaced-parent', 'a yielding subproject option keeps reading the parent object that update_project_options replaced')
-    if kind == 'value' and key in U and st.spec.get(key, {}).get('t') == 'boolean' and st.val.get('top:' + key[4:]) == 'false':
+    if kind == 'value' and key in U and st.spec.get(key, {}).get('t') == 'boolean' and st.val.get('top:' + REF.name_of(key)) == 'false':
         return ('unset-override-of-yielding-boolean-with-false-parent', '-Usub:opt does not return a boolean option to its (false) parent')
     if kind == 'value' and op in ('configure', 'setup') and key in D and st.inherits.get(key) and key not in st.override and \
             REF.validate(st.spec[key], D[key]) == st.val.get(key):
@@ -735,7 +837,7 @@ def oracle(hist: T.List[dict], obs: T.List[dict], reach: T.Optional[T.Set[str]] 
         reach = set()
     st = REF.State()
     decl = {p: dict(d) for p, d in INIT.items()}                 # declarations (kept while the file is absent)
-    fstate: T.Dict[str, T.Optional[str]] = {'top': 'options', 'sub': 'options'}
+    fstate: T.Dict[str, T.Optional[str]] = {p: 'options' for p in INIT}
     read_fstate = dict(fstate)                                   # file names at the last (re)configuration that read them
     files = {p: dict(d) for p, d in INIT.items()}               # what the option files declare now
     prev: T.Optional[dict] = None
@@ -747,7 +849,7 @@ def oracle(hist: T.List[dict], obs: T.List[dict], reach: T.Optional[T.Set[str]] 
                 decl[cmd['proj']].pop(cmd['name'], None)
             else:
                 decl[cmd['proj']][cmd['name']] = cmd['spec']
-            files = {p: (dict(decl[p]) if fstate[p] is not None else {}) for p in ('top', 'sub')}
+            files = {p: (dict(decl[p]) if fstate[p] is not None else {}) for p in INIT}
             if persisted(ob) != persisted(prev):
                 return {'step': i, 'key': 'edit-changed-build-directory', 'what': 'editing the option file changed the build directory'}
             prev = ob
@@ -769,7 +871,7 @@ def oracle(hist: T.List[dict], obs: T.List[dict], reach: T.Optional[T.Set[str]] 
                     break
         if not okay and ob['rc'] == 'ok' and ob['core'] and not ob['core'].get('corrupt') and \
                 (cmd['op'] == 'configure' or (cmd['op'] == 'setup' and st.configured)) and \
-                fstate['sub'] != read_fstate['sub']:
+                any(fstate[p] != read_fstate[p] or fstate[p] is None for p in SUBS):
             return {'step': i, 'key': 'mconf-reads-top-level-option-file-for-subproject',
                     'what': 'after the option file of a subproject was deleted or renamed, `meson configure` reads the '
                             'TOP-LEVEL option file for it and registers the top-level options as sub:* (recorded under C06)'}
@@ -903,6 +1005,16 @@ def run(ctx: Ctx) -> None:
     tpl = templates()
     if not ctx.deep or cap:
         must = [t for t in tpl if t[0].startswith('yield:')]
+        # two subprojects sharing names and definitions: every clause for every kind would be 80 histories; quick
+        # takes every clause for one kind (the twin removed / replaced, child yielding / overridden: two kinds), drawn by the seed,
+        # + the two-children histories
+        twin = [t for t in tpl if t[0].startswith('twin:')]
+        for cl2 in sorted({t[0] for t in twin}):
+            cs = [t for t in twin if t[0] == cl2]
+            seedclass = cl2 in ('twin:removed', 'twin:replaced', 'twin:removed:child-overridden', 'twin:replaced:child-overridden')
+            must += ctx.rng.sample(cs, min(2 if seedclass else 1, len(cs)))
+        must += [t for t in tpl if t[0] == 'two-children']
+        must += ctx.rng.sample([t for t in tpl if t[0] == 'persist:empty-value'], 3)
         # late / after-dump failures of every command kind (incl. --wipe and the regeneration after a corrupt
         # coredata.dat): two option kinds per clause, drawn by the seed
         late_clauses = sorted({t[0] for t in tpl if t[0].startswith('fail-') or 'regenerate' in t[0]})
